@@ -224,6 +224,10 @@ def located_part(report, rng, tier):
         lines.append("%s front %s 1" % (cid, lib.hexs(text)))
     impl = lib.run_cases(lib.build_harness("dev"), lines)
     stats = collections.Counter()
+    import rendercheck
+    n_r, n_v = rendercheck.compare(report, {cid: c["hcl"] for cid, c in cases.items()}, impl, "diag")
+    stats["renderings_compared_with_model"] = n_r
+    stats["error_variants_rendered"] = n_v
     for cid, c in cases.items():
         blk = impl.get(cid, ["MISSING"])
         rep = {"case": c, "impl": [l[:400] for l in blk]}
